@@ -9,7 +9,7 @@ from .spec import FIELDS, FIELD_WIDTH
 
 # fields whose content defines geometry / sample axis for segyio or the converter: values are still
 # generated (line numbers, interval, delay) but kept structurally valid
-RESERVED = {189, 193, 37, 109, 115, 117}
+RESERVED = {189, 193, 37, 109, 115, 117, 215}   # 215: scalar segyio applies to the delay time
 FREE_FIELDS = [f for f in FIELDS if f not in RESERVED]
 FIELD_KINDS = ["const", "vary", "dup", "extreme", "negvary", "mid"]   # "mid": first == last, differs between
 FREE_BIN = [3201, 3205, 3209, 3227, 3233, 3235, 3255]
